@@ -5,25 +5,554 @@ Helper lemmas for C17 (Props/C17.lean states the property theorems and only cite
 namespace TemplVerif.Proofs.Doc
 open TemplVerif TemplVerif.Doc
 
-theorem ofText_wf_text (t : Bytes) : WellFormed (ofText t) ∧ text (ofText t) = t := by
-  sorry
+theorem splitLF_ne_nil (t : Bytes) : splitLF t ≠ [] := by
+  induction t with
+  | nil => simp [splitLF]
+  | cons b rest ih =>
+    unfold splitLF
+    by_cases h : b = 10
+    · simp [h]
+    · simp only [h, if_false]
+      split <;> simp
 
-theorem apply_nil (d : Doc) (txt : Bytes) :
-    text (Doc.apply d none txt) = Editor.apply (text d) none txt := by
-  sorry
+theorem joinLF_cons_of_ne_nil (l : Bytes) {ls : List Bytes} (h : ls ≠ []) :
+    joinLF (l :: ls) = l ++ 10 :: joinLF ls := by
+  cases ls with
+  | nil => exact absurd rfl h
+  | cons a as => rfl
+
+theorem joinLF_splitLF (t : Bytes) : joinLF (splitLF t) = t := by
+  induction t with
+  | nil => simp [splitLF, joinLF]
+  | cons b rest ih =>
+    unfold splitLF
+    by_cases h : b = 10
+    · subst h
+      simp [joinLF_cons_of_ne_nil _ (splitLF_ne_nil rest), ih]
+    · simp only [h, if_false]
+      have hne := splitLF_ne_nil rest
+      revert ih hne
+      cases splitLF rest with
+      | nil => intro _ hne; exact absurd rfl hne
+      | cons l ls =>
+        intro ih _
+        cases ls with
+        | nil => simp [joinLF] at ih ⊢; exact ih
+        | cons a as =>
+          simp only [joinLF] at ih ⊢
+          simp [ih]
+
+def NoLF (d : Doc) : Prop := ∀ l ∈ d, (10 : UInt8) ∉ l
+
+theorem splitLF_noLF (t : Bytes) : NoLF (splitLF t) := by
+  induction t with
+  | nil => simp [splitLF, NoLF]
+  | cons b rest ih =>
+    unfold splitLF
+    by_cases h : b = 10
+    · subst h
+      simp only [if_true, NoLF, List.mem_cons]
+      intro l hl
+      rcases hl with rfl | hl
+      · simp
+      · exact ih l hl
+    · simp only [h, if_false]
+      revert ih
+      cases splitLF rest with
+      | nil => intro _; simp [NoLF]; exact fun a => h a.symm
+      | cons l ls =>
+        intro ih
+        intro x hx
+        simp only [List.mem_cons] at hx
+        rcases hx with rfl | hx
+        · have := ih l (by simp)
+          simp only [List.mem_cons, not_or]
+          exact ⟨fun a => h a.symm, this⟩
+        · exact ih x (by simp [hx])
+
+theorem splitLF_append_noLF (l : Bytes) (hl : (10 : UInt8) ∉ l) (t : Bytes) :
+    splitLF (l ++ 10 :: t) = l :: splitLF t := by
+  induction l with
+  | nil => simp [splitLF]
+  | cons b l ih =>
+    simp only [List.mem_cons, not_or] at hl
+    have hb : b ≠ 10 := fun h => hl.1 h.symm
+    simp only [List.cons_append]
+    rw [splitLF]
+    simp [hb, ih hl.2]
+
+theorem splitLF_noLF_single (l : Bytes) (hl : (10 : UInt8) ∉ l) : splitLF l = [l] := by
+  induction l with
+  | nil => simp [splitLF]
+  | cons b l ih =>
+    simp only [List.mem_cons, not_or] at hl
+    have hb : b ≠ 10 := fun h => hl.1 h.symm
+    rw [splitLF]
+    simp [hb, ih hl.2]
+
+theorem splitLF_joinLF (d : Doc) (hd : WellFormed d) : splitLF (joinLF d) = d := by
+  obtain ⟨hne, hno⟩ := hd
+  induction d with
+  | nil => exact absurd rfl hne
+  | cons l ls ih =>
+    cases ls with
+    | nil => simp [joinLF]; exact splitLF_noLF_single l (hno l (by simp))
+    | cons a as =>
+      rw [joinLF_cons_of_ne_nil _ (by simp), splitLF_append_noLF l (hno l (by simp))]
+      rw [ih (by simp) (fun x hx => hno x (by simp [hx]))]
+
+
+theorem joinLF_head_append (x y : Bytes) (b : List Bytes) :
+    joinLF ((x ++ y) :: b) = x ++ joinLF (y :: b) := by
+  cases b with
+  | nil => simp [joinLF]
+  | cons a as => simp [joinLF]
+
+/-- The key splitting lemma. -/
+theorem joinLF_split (a : List Bytes) (x y : Bytes) (b : List Bytes) :
+    joinLF (a ++ (x ++ y) :: b) = joinLF (a ++ [x]) ++ joinLF (y :: b) := by
+  induction a with
+  | nil => simpa [joinLF] using joinLF_head_append x y b
+  | cons h a ih =>
+    simp only [List.cons_append]
+    rw [joinLF_cons_of_ne_nil _ (by simp), joinLF_cons_of_ne_nil _ (by simp), ih]
+    simp
+
+theorem line_cons_succ (h : Bytes) (t : Doc) (n : Nat) : line (h :: t) (n + 1) = line t n := by
+  simp [line]
+
+theorem line_cons_zero (h : Bytes) (t : Doc) : line (h :: t) 0 = h := by
+  simp [line]
+
+/-- prefix / suffix of the text at a position -/
+def pre (d : Doc) (l c : Nat) : Bytes := joinLF (d.take l ++ [(line d l).take c])
+def suf (d : Doc) (l c : Nat) : Bytes := joinLF ((line d l).drop c :: d.drop (l + 1))
+
+theorem doc_decomp (d : Doc) (l : Nat) (hl : l < d.length) :
+    d = d.take l ++ line d l :: d.drop (l + 1) := by
+  induction d generalizing l with
+  | nil => simp at hl
+  | cons h t ih =>
+    cases l with
+    | zero => simp [line]
+    | succ n =>
+      simp only [List.length_cons, Nat.add_lt_add_iff_right] at hl
+      simp only [List.take_succ_cons, List.drop_succ_cons, line_cons_succ, List.cons_append]
+      rw [← ih n hl]
+
+theorem text_decomp (d : Doc) (l c : Nat) (hl : l < d.length) :
+    joinLF d = pre d l c ++ suf d l c := by
+  unfold pre suf
+  rw [← joinLF_split, List.take_append_drop, ← doc_decomp d l hl]
+
+theorem pre_length (d : Doc) (l c : Nat) (hl : l < d.length) (hc : c ≤ lineLen d l) :
+    (pre d l c).length = offset d ⟨l, c⟩ := by
+  induction d generalizing l with
+  | nil => simp at hl
+  | cons h t ih =>
+    cases l with
+    | zero =>
+      simp [lineLen, line] at hc
+      simp [pre, line, joinLF, offset, hc]
+    | succ n =>
+      simp only [List.length_cons, Nat.add_lt_add_iff_right] at hl
+      simp only [lineLen, line_cons_succ] at hc
+      have := ih n hl hc
+      unfold pre at this ⊢
+      simp only [List.take_succ_cons, List.cons_append, line_cons_succ]
+      rw [joinLF_cons_of_ne_nil _ (by simp)]
+      simp [offset, this]; omega
+
+
+theorem set_at_length {α} (a : List α) (x y : α) (b : List α) (i : Nat) (hi : a.length = i) :
+    (a ++ x :: b).set i y = a ++ y :: b := by
+  subst hi
+  induction a with
+  | nil => simp
+  | cons h a ih => simp [ih]
+
+theorem length_take_of_lt (d : Doc) (l : Nat) (hl : l < d.length) : (d.take l).length = l := by
+  simp; omega
+
+theorem set_line (d : Doc) (l : Nat) (v : Bytes) (hl : l < d.length) :
+    d.set l v = d.take l ++ v :: d.drop (l + 1) := by
+  conv => lhs; rw [doc_decomp d l hl]
+  exact set_at_length _ _ _ _ _ (length_take_of_lt d l hl)
+
+theorem drop_line (d : Doc) (l : Nat) (hl : l < d.length) :
+    d.drop l = line d l :: d.drop (l + 1) := by
+  conv => lhs; rw [doc_decomp d l hl]
+  exact List.drop_left' (length_take_of_lt d l hl)
+
+theorem delete_eq (d : Doc) (fl fc tl tc : Nat) (h1 : fl ≤ tl) (h2 : tl < d.length) :
+    delete d fl fc tl tc
+      = d.take fl ++ ((line d fl).take fc ++ (line d tl).drop tc) :: d.drop (tl + 1) := by
+  unfold delete deleteLines
+  simp only []
+  rw [drop_line d tl h2]
+  exact set_at_length _ _ _ _ _ (length_take_of_lt d fl (by omega))
+
+theorem insert_single (d : Doc) (l c : Nat) (l0 : Bytes) (hl : l < d.length) :
+    Doc.insert d l c [l0]
+      = d.take l ++ ((line d l).take c ++ l0 ++ (line d l).drop c) :: d.drop (l + 1) := by
+  unfold Doc.insert
+  simp only [List.isEmpty_nil, if_true, List.length_nil, Nat.add_zero, List.getLast?_singleton,
+    Option.getD_some]
+  rw [set_line d l _ hl]
+  exact set_at_length _ _ _ _ _ (length_take_of_lt d l hl)
+
+theorem insert_multi (d : Doc) (l c : Nat) (l0 : Bytes) (init : List Bytes) (lst : Bytes)
+    (hl : l < d.length) :
+    Doc.insert d l c (l0 :: (init ++ [lst]))
+      = d.take l ++ ((line d l).take c ++ l0) :: init ++ (lst ++ (line d l).drop c) :: d.drop (l + 1) := by
+  unfold Doc.insert
+  have hne : (init ++ [lst]).isEmpty = false := by simp
+  simp only [hne, insertLines]
+  rw [set_line d l _ hl]
+  have hlen := length_take_of_lt d l hl
+  have h1 : List.take (l + 1) (List.take l d ++ (List.take c (line d l) ++ l0) :: List.drop (l + 1) d)
+      = List.take l d ++ [List.take c (line d l) ++ l0] := by
+    have : List.take l d ++ (List.take c (line d l) ++ l0) :: List.drop (l + 1) d
+        = (List.take l d ++ [List.take c (line d l) ++ l0]) ++ List.drop (l + 1) d := by simp
+    rw [this]
+    exact List.take_left' (by simp [hlen])
+  have h2 : List.drop (l + 1) (List.take l d ++ (List.take c (line d l) ++ l0) :: List.drop (l + 1) d)
+      = List.drop (l + 1) d := by
+    have : List.take l d ++ (List.take c (line d l) ++ l0) :: List.drop (l + 1) d
+        = (List.take l d ++ [List.take c (line d l) ++ l0]) ++ List.drop (l + 1) d := by simp
+    rw [this]
+    exact List.drop_left' (by simp [hlen])
+  have h3 : ((List.take c (line d l) ++ l0) :: (init ++ [lst])).getLast?.getD [] = lst := by
+    rw [show (List.take c (line d l) ++ l0) :: (init ++ [lst])
+        = ((List.take c (line d l) ++ l0) :: init) ++ [lst] by simp, List.getLast?_concat]
+    rfl
+  simp only [Bool.false_eq_true, if_false, h1, h2, h3]
+  have : List.take l d ++ [List.take c (line d l) ++ l0] ++ (init ++ [lst]) ++ List.drop (l + 1) d
+      = (List.take l d ++ (List.take c (line d l) ++ l0) :: init) ++ lst :: List.drop (l + 1) d := by
+    simp
+  rw [this, set_at_length _ _ _ _ _ (by simp [hlen])]
+
+theorem insert_text (d : Doc) (l c : Nat) (ws : List Bytes) (hl : l < d.length) (hw : ws ≠ []) :
+    joinLF (Doc.insert d l c ws) = pre d l c ++ joinLF ws ++ suf d l c := by
+  cases ws with
+  | nil => exact absurd rfl hw
+  | cons l0 rest =>
+    rcases List.eq_nil_or_concat rest with rfl | ⟨init, lst, rfl⟩
+    · rw [insert_single d l c l0 hl]
+      unfold pre suf
+      rw [List.append_assoc, joinLF_split, joinLF_head_append]
+      simp [joinLF]
+    · rw [List.concat_eq_append, insert_multi d l c l0 init lst hl]
+      unfold pre suf
+      rw [joinLF_split, List.append_assoc, List.cons_append, joinLF_split]
+
+theorem delete_text (d : Doc) (fl fc tl tc : Nat) (h1 : fl ≤ tl) (h2 : tl < d.length) :
+    joinLF (delete d fl fc tl tc) = pre d fl fc ++ suf d tl tc := by
+  rw [delete_eq d fl fc tl tc h1 h2, joinLF_split]
+  rfl
+
+
+theorem setLast_concat (init : List Bytes) (lst : Bytes) (f : Bytes → Bytes) :
+    setLast (init ++ [lst]) f = init ++ [f lst] := by
+  simp [setLast]
+
+theorem line_at_length (a : List Bytes) (x : Bytes) (b : List Bytes) (i : Nat) (hi : a.length = i) :
+    line (a ++ x :: b) i = x := by
+  subst hi
+  simp [line]
+
+theorem overwrite_text (d : Doc) (fl fc tl tc : Nat) (ws : List Bytes) (h1 : fl ≤ tl)
+    (h2 : tl < d.length) (hw : ws ≠ []) :
+    joinLF (overwrite d fl fc tl tc ws) = pre d fl fc ++ joinLF ws ++ suf d tl tc := by
+  rcases List.eq_nil_or_concat ws with rfl | ⟨init, lst, rfl⟩
+  · exact absurd rfl hw
+  rw [List.concat_eq_append]
+  unfold overwrite
+  simp only [setLast_concat]
+  rw [delete_eq d fl fc tl _ h1 h2]
+  have hlen := length_take_of_lt d fl (by omega)
+  rw [insert_text _ _ _ _ (by simp; omega) (by simp)]
+  unfold pre suf
+  rw [line_at_length _ _ _ _ hlen, List.take_left' hlen]
+  have hd : List.drop (fl + 1)
+      (List.take fl d ++ (List.take fc (line d fl) ++ List.drop (lineLen d tl) (line d tl)) :: List.drop (tl + 1) d)
+      = List.drop (tl + 1) d := by
+    rw [show ∀ (a : List Bytes) x b, a ++ x :: b = (a ++ [x]) ++ b by simp]
+    exact List.drop_left' (by simp [hlen])
+  rw [hd]
+  have e1 : List.drop (lineLen d tl) (line d tl) = [] := by simp [lineLen]
+  rw [e1, List.append_nil, List.take_take, Nat.min_self]
+  have e2 : List.drop fc (List.take fc (line d fl)) = [] := by simp
+  rw [e2, List.append_assoc, List.append_assoc]
+  congr 1
+  rw [← joinLF_split, ← joinLF_split]
+  simp
+
+theorem normPos_spec (d : Doc) (hd : d ≠ []) (p : Pos) :
+    (normPos d p).line < d.length ∧ (normPos d p).char ≤ lineLen d (normPos d p).line := by
+  have hlen : 0 < d.length := List.length_pos_iff.mpr hd
+  unfold normPos
+  simp only []
+  split <;> split <;> simp_all <;> omega
+
+
+theorem splice_eq (d : Doc) (s e : Pos) (txt : Bytes)
+    (hs1 : s.line < d.length) (hs2 : s.char ≤ lineLen d s.line)
+    (he1 : e.line < d.length) (he2 : e.char ≤ lineLen d e.line) :
+    (joinLF d).take (offset d s) ++ txt ++ (joinLF d).drop (offset d e)
+      = pre d s.line s.char ++ txt ++ suf d e.line e.char := by
+  have a1 : (joinLF d).take (offset d s) = pre d s.line s.char := by
+    rw [text_decomp d s.line s.char hs1]
+    exact List.take_left' (pre_length d s.line s.char hs1 hs2)
+  have a2 : (joinLF d).drop (offset d e) = suf d e.line e.char := by
+    rw [text_decomp d e.line e.char he1]
+    exact List.drop_left' (pre_length d e.line e.char he1 he2)
+  rw [a1, a2]
+
+/-- `Doc.apply` after normalisation. -/
+def applyN (d : Doc) (r : Rng) (txt : Bytes) : Doc :=
+  if isWhole d r then splitLF txt
+  else if isEmptyRange r && !txt.isEmpty then Doc.insert d r.start.line r.start.char (splitLF txt)
+  else if !isEmptyRange r && txt.isEmpty then delete d r.start.line r.start.char r.stop.line r.stop.char
+  else if !isEmptyRange r && !txt.isEmpty then
+    overwrite d r.start.line r.start.char r.stop.line r.stop.char (splitLF txt)
+  else d
+
+theorem apply_eq_applyN (d : Doc) (r : Rng) (txt : Bytes) :
+    Doc.apply d (some r) txt = applyN d (normalize d r) txt := rfl
+
+theorem applyN_text (d : Doc) (sl sc el ec : Nat) (txt : Bytes)
+    (hs1 : sl < d.length) (hs2 : sc ≤ lineLen d sl)
+    (he1 : el < d.length) (he2 : ec ≤ lineLen d el)
+    (ho : Pos.le ⟨sl, sc⟩ ⟨el, ec⟩ = true) :
+    joinLF (applyN d ⟨⟨sl, sc⟩, ⟨el, ec⟩⟩ txt) = pre d sl sc ++ txt ++ suf d el ec := by
+  simp only [Pos.le, Bool.or_eq_true, Bool.and_eq_true, decide_eq_true_eq, beq_iff_eq] at ho
+  have hle : sl ≤ el := by omega
+  unfold applyN
+  have hws := splitLF_ne_nil txt
+  by_cases hW : isWhole d ⟨⟨sl, sc⟩, ⟨el, ec⟩⟩ = true
+  · rw [if_pos hW]
+    simp only [isWhole, bne_iff_ne, ne_eq, Bool.or_eq_true] at hW
+    split at hW
+    · simp at hW
+    · rename_i h0
+      simp only [Bool.and_eq_true, beq_iff_eq] at hW
+      obtain ⟨rfl, rfl⟩ := hW
+      have hsl : sl = 0 := by omega
+      have hsc : sc = 0 := by omega
+      subst hsl hsc
+      have e1 : pre d 0 0 = [] := by simp [pre, joinLF]
+      have e2 : suf d (d.length - 1) (lineLen d (d.length - 1)) = [] := by
+        have : d.length - 1 + 1 = d.length := by omega
+        simp [suf, lineLen, this, joinLF]
+      rw [e1, e2, joinLF_splitLF]
+      simp
+  · rw [if_neg hW]
+    by_cases hE : el = sl ∧ sc = ec
+    · obtain ⟨rfl, rfl⟩ := hE
+      by_cases ht : txt = []
+      · subst ht
+        simp [isEmptyRange, text_decomp d el sc he1]
+      · have : txt.isEmpty = false := by simpa using ht
+        simp only [isEmptyRange, this, beq_self_eq_true, Bool.and_self, Bool.not_false, if_true]
+        rw [insert_text d el sc _ he1 hws, joinLF_splitLF]
+    · have hE' : isEmptyRange ⟨⟨sl, sc⟩, ⟨el, ec⟩⟩ = false := by
+        simp only [isEmptyRange, Bool.and_eq_false_iff, beq_eq_false_iff_ne, ne_eq]
+        omega
+      by_cases ht : txt = []
+      · subst ht
+        simp only [hE', List.isEmpty_nil, Bool.not_true, Bool.and_false, Bool.false_eq_true, if_false,
+          Bool.not_false, Bool.and_self, if_true]
+        rw [delete_text d sl sc el ec hle he1]
+        simp
+      · have : txt.isEmpty = false := by simpa using ht
+        simp only [hE', this, Bool.not_false, Bool.and_self, Bool.and_false, Bool.false_and,
+          Bool.false_eq_true, if_false, if_true]
+        rw [overwrite_text d sl sc el ec _ hle he1 hws, joinLF_splitLF]
 
 theorem apply_some (d : Doc) (hd : WellFormed d) (r : Rng) (txt : Bytes)
     (ho : ordered d (some r) = true) :
     text (Doc.apply d (some r) txt) = Editor.apply (text d) (some r) txt := by
-  sorry
+  have hne := hd.1
+  obtain ⟨hs1, hs2⟩ := normPos_spec d hne r.start
+  obtain ⟨he1, he2⟩ := normPos_spec d hne r.stop
+  unfold Editor.apply text
+  simp only [splitLF_joinLF d hd]
+  rw [show (normalize d r).start = normPos d r.start from rfl,
+      show (normalize d r).stop = normPos d r.stop from rfl,
+      splice_eq d _ _ txt hs1 hs2 he1 he2, apply_eq_applyN]
+  exact applyN_text d _ _ _ _ txt hs1 hs2 he1 he2 ho
+
+
+/-! ## well-formedness -/
+
+theorem noLF_append {a b : Doc} (ha : NoLF a) (hb : NoLF b) : NoLF (a ++ b) := by
+  intro l hl
+  rcases List.mem_append.mp hl with h | h
+  · exact ha l h
+  · exact hb l h
+
+theorem noLF_take {d : Doc} (h : NoLF d) (n : Nat) : NoLF (d.take n) :=
+  fun l hl => h l (List.mem_of_mem_take hl)
+
+theorem noLF_drop {d : Doc} (h : NoLF d) (n : Nat) : NoLF (d.drop n) :=
+  fun l hl => h l (List.mem_of_mem_drop hl)
+
+theorem noLF_set {d : Doc} (h : NoLF d) (n : Nat) {v : Bytes} (hv : (10 : UInt8) ∉ v) :
+    NoLF (d.set n v) := by
+  intro l hl
+  rcases List.mem_or_eq_of_mem_set hl with h' | rfl
+  · exact h l h'
+  · exact hv
+
+theorem noLF_line {d : Doc} (h : NoLF d) (n : Nat) : (10 : UInt8) ∉ line d n := by
+  unfold line
+  by_cases hn : n < d.length
+  · rw [List.getD_eq_getElem?_getD, List.getElem?_eq_getElem hn]
+    exact h _ (List.getElem_mem hn)
+  · rw [List.getD_eq_getElem?_getD, List.getElem?_eq_none (by omega)]
+    simp
+
+theorem notMem_take {l : Bytes} (h : (10 : UInt8) ∉ l) (n : Nat) : (10 : UInt8) ∉ l.take n :=
+  fun hm => h (List.mem_of_mem_take hm)
+
+theorem notMem_drop {l : Bytes} (h : (10 : UInt8) ∉ l) (n : Nat) : (10 : UInt8) ∉ l.drop n :=
+  fun hm => h (List.mem_of_mem_drop hm)
+
+theorem notMem_append {a b : Bytes} (ha : (10 : UInt8) ∉ a) (hb : (10 : UInt8) ∉ b) :
+    (10 : UInt8) ∉ a ++ b := by
+  simp [ha, hb]
+
+theorem delete_noLF {d : Doc} (h : NoLF d) (fl fc tl tc : Nat) : NoLF (delete d fl fc tl tc) := by
+  unfold delete deleteLines
+  exact noLF_set (noLF_append (noLF_take h _) (noLF_drop h _)) _
+    (notMem_append (notMem_take (noLF_line h _) _) (notMem_drop (noLF_line h _) _))
+
+theorem delete_ne_nil (d : Doc) (fl fc tl tc : Nat) (h : tl < d.length) :
+    delete d fl fc tl tc ≠ [] := by
+  unfold delete deleteLines
+  intro hc
+  have := congrArg List.length hc
+  simp at this
+  omega
+
+theorem noLF_getLast {ls : Doc} (h : NoLF ls) : (10 : UInt8) ∉ ls.getLast?.getD [] := by
+  cases hl : ls.getLast? with
+  | none => simp
+  | some x => exact h x (List.mem_of_getLast? hl)
+
+theorem insert_noLF {d : Doc} (h : NoLF d) (l c : Nat) {ls : Doc} (hls : NoLF ls) :
+    NoLF (Doc.insert d l c ls) := by
+  unfold Doc.insert
+  cases ls with
+  | nil => exact h
+  | cons l0 rest =>
+    have hl0 : (10 : UInt8) ∉ l0 := hls l0 (by simp)
+    have hrest : NoLF rest := fun x hx => hls x (by simp [hx])
+    have hfirst : (10 : UInt8) ∉ List.take c (line d l) ++ l0 :=
+      notMem_append (notMem_take (noLF_line h _) _) hl0
+    have hd1 : NoLF (d.set l (List.take c (line d l) ++ l0)) := noLF_set h _ hfirst
+    simp only []
+    apply noLF_set
+    · split
+      · exact hd1
+      · unfold insertLines
+        exact noLF_append (noLF_append (noLF_take hd1 _) hrest) (noLF_drop hd1 _)
+    · apply notMem_append _ (notMem_drop (noLF_line h _) _)
+      apply noLF_getLast
+      intro x hx
+      rcases List.mem_cons.mp hx with rfl | hx
+      · exact hfirst
+      · exact hrest x hx
+
+theorem insert_ne_nil (d : Doc) (hd : d ≠ []) (l c : Nat) (ls : Doc) : Doc.insert d l c ls ≠ [] := by
+  have hlen : 0 < d.length := List.length_pos_iff.mpr hd
+  unfold Doc.insert
+  cases ls with
+  | nil => exact hd
+  | cons l0 rest =>
+    simp only []
+    intro hc
+    have := congrArg List.length hc
+    simp only [List.length_set, List.length_nil] at this
+    split at this
+    · rw [List.length_set] at this; omega
+    · rename_i hr
+      have hr' : 0 < rest.length := by
+        cases rest with
+        | nil => simp at hr
+        | cons => simp
+      simp only [insertLines, List.length_append] at this
+      omega
+
+theorem setLast_noLF {ls : Doc} (h : NoLF ls) {s : Bytes} (hs : (10 : UInt8) ∉ s) :
+    NoLF (setLast ls (· ++ s)) := by
+  rcases List.eq_nil_or_concat ls with rfl | ⟨init, lst, rfl⟩
+  · simpa [setLast] using h
+  · rw [List.concat_eq_append] at h ⊢
+    rw [setLast_concat]
+    apply noLF_append
+    · exact fun x hx => h x (by simp [hx])
+    · intro x hx
+      simp only [List.mem_singleton] at hx
+      subst hx
+      exact notMem_append (h lst (by simp)) hs
+
+theorem applyN_wf (d : Doc) (hd : WellFormed d) (r : Rng) (txt : Bytes) (he : r.stop.line < d.length) :
+    WellFormed (applyN d r txt) := by
+  obtain ⟨hne, hno⟩ := hd
+  have hno : NoLF d := hno
+  have hsplit : WellFormed (splitLF txt) := ⟨splitLF_ne_nil txt, splitLF_noLF txt⟩
+  unfold applyN
+  split
+  · exact hsplit
+  · split
+    · exact ⟨insert_ne_nil d hne _ _ _, insert_noLF hno _ _ hsplit.2⟩
+    · split
+      · exact ⟨delete_ne_nil d _ _ _ _ he, delete_noLF hno _ _ _ _⟩
+      · split
+        · unfold overwrite
+          exact ⟨insert_ne_nil _ (delete_ne_nil d _ _ _ _ he) _ _ _,
+            insert_noLF (delete_noLF hno _ _ _ _) _ _
+              (setLast_noLF hsplit.2 (notMem_drop (noLF_line hno _) _))⟩
+        · exact ⟨hne, hno⟩
+
+theorem ofText_wf_text (t : Bytes) : WellFormed (ofText t) ∧ text (ofText t) = t :=
+  ⟨⟨splitLF_ne_nil t, splitLF_noLF t⟩, joinLF_splitLF t⟩
+
+theorem apply_nil (d : Doc) (txt : Bytes) :
+    text (Doc.apply d none txt) = Editor.apply (text d) none txt :=
+  joinLF_splitLF txt
 
 theorem apply_wf (d : Doc) (hd : WellFormed d) (r : Option Rng) (txt : Bytes) :
     WellFormed (Doc.apply d r txt) := by
-  sorry
+  cases r with
+  | none => exact ⟨splitLF_ne_nil txt, splitLF_noLF txt⟩
+  | some r =>
+    rw [apply_eq_applyN]
+    exact applyN_wf d hd _ txt (normPos_spec d hd.1 r.stop).1
+
+theorem ofText_text (d : Doc) (hd : WellFormed d) : ofText (text d) = d := splitLF_joinLF d hd
 
 theorem hist (t₀ : Bytes) (cs : List Change) (h : allOrdered t₀ cs = true) :
     text (cs.foldl (fun d c => Doc.apply d c.1 c.2) (ofText t₀))
       = cs.foldl (fun t c => Editor.apply t c.1 c.2) t₀ := by
-  sorry
+  induction cs generalizing t₀ with
+  | nil => exact (ofText_wf_text t₀).2
+  | cons c cs ih =>
+    obtain ⟨r, txt⟩ := c
+    simp only [allOrdered, Bool.and_eq_true] at h
+    obtain ⟨ho, hrest⟩ := h
+    obtain ⟨hwf, htext⟩ := ofText_wf_text t₀
+    have hstep : text (Doc.apply (ofText t₀) r txt) = Editor.apply t₀ r txt := by
+      cases r with
+      | none => rw [apply_nil, htext]
+      | some r => rw [apply_some _ hwf r txt ho, htext]
+    have hwf' := apply_wf (ofText t₀) hwf r txt
+    have hd' : Doc.apply (ofText t₀) r txt = ofText (Editor.apply t₀ r txt) := by
+      rw [← hstep, ofText_text _ hwf']
+    simp only [List.foldl_cons]
+    rw [hd']
+    exact ih _ hrest
 
 end TemplVerif.Proofs.Doc
